@@ -120,6 +120,18 @@ theorem C17_case (tbl : List UInt8) (h : Bytes → Nat) (n k : Nat) (seqs : List
 example : ([[97, 67, 103]] : List Bytes).map upper = ([[65, 99, 71]] : List Bytes).map upper := by
   decide
 
+/-- (d) Strand symmetry of canonical k-mers (also C12's last clause): a sequence and its reverse
+complement yield the same items in opposite order; a panic on one strand is a panic on both. -/
+theorem C17_canonical_strand {tbl : List UInt8} (hc : CompOK tbl) (s : Bytes) (k : Nat) :
+    (Sequtil.revComp tbl [] s).bind (fun r => Sequtil.canonical tbl r k) =
+      (Sequtil.canonical tbl s k).map List.reverse :=
+  Sequtil.canonical_revComp_bind hc s k
+
+example : Sequtil.canonical exTbl [65, 65, 67, 71, 84] 2 =
+    some [[65, 65], [65, 67], [67, 71], [65, 67]] := by decide +kernel
+example : Sequtil.canonical exTbl [65, 67, 71, 84, 84] 2 =
+    some [[65, 67], [67, 71], [65, 67], [65, 65]] := by decide +kernel
+
 /-- (d) Strand: replacing any one sequence by its reverse complement. -/
 theorem C17_strand {tbl : List UInt8} (hc : CompOK tbl) (hu : CaseOK tbl)
     (h : Bytes → Nat) (n k : Nat) (pre post : List Bytes) {s r : Bytes}
